@@ -140,6 +140,52 @@ func runProtlog(c *vk.Ctx) {
 		vsys.MprotectDeny = nil
 		vsys.ResetLog()
 	}
+	// environment-answer histories: each of three consecutive writes either meets the W^X refusal or does not
+	// (all 8 patterns), followed by an ordinary install/removal. A write that is not refused is judged like any
+	// other - whatever the environment answered earlier, it must keep the pages executable throughout.
+	if c.Shard == 2%c.NShards {
+		deny := func(prot int) bool { return prot&syscall.PROT_WRITE != 0 && prot&syscall.PROT_EXEC != 0 }
+		base := zz.PlaceholderAddr()
+		ps := uintptr(syscall.Getpagesize())
+		first := (base + ps) &^ (ps - 1)
+		addr := first - 5
+		cur := vk.Copy(addr, 13)
+		var tg0 *corpus.Target
+		for i := range targets {
+			if _, err := zz.Patch(targets[i].Fn, corpus.Repl(targets[i].Sig, 0)); err == nil {
+				tg0 = &targets[i]
+				break
+			}
+		}
+		zz.UnpatchAll()
+		for pat := 0; pat < 8; pat++ {
+			for k := 0; k < 3; k++ {
+				denied := pat>>k&1 == 1
+				if denied {
+					vsys.MprotectDeny = deny
+				}
+				vsys.ResetLog()
+				_, _ = vk.Try(func() { _ = zz.WriteTo(addr, cur) })
+				vsys.MprotectDeny = nil
+				if denied {
+					vsys.ResetLog()
+					continue
+				}
+				judge(fmt.Sprintf("placeholder@boundary-5 len 13 (write %d of refusal pattern %03b)", k, pat), "write-after-refusals")
+			}
+			if tg0 != nil {
+				vsys.ResetLog()
+				if g, err := zz.Patch(tg0.Fn, corpus.Repl(tg0.Sig, 0)); err == nil {
+					g.Apply()
+					judge(fmt.Sprintf("%s (after refusal pattern %03b)", tg0.Name, pat), "apply-after-refusals")
+					g.UnpatchWithLock()
+					judge(fmt.Sprintf("%s (after refusal pattern %03b)", tg0.Name, pat), "unpatch-after-refusals")
+				}
+				zz.UnpatchAll()
+			}
+		}
+		vsys.ResetLog()
+	}
 	c.Res.Extra["protlog_targets"] = len(targets)
 	_ = reflect.TypeOf
 }
